@@ -17,7 +17,8 @@ RULE = (
     "no entry repeated, and each recorded ESS / target ESS / incremental ratio equals the simulator's own "
     "recomputation from the neighbouring stored populations. evaluations = processes simulated; non-trivial = a "
     "judged history with >= 2 iterations; distinct_nontrivial counts distinct (schedule mode, n_final, checkpoint "
-    "mode, cadence, route, crash phase, namespace, preconditioning, resumed-at-final) tuples."
+    "mode, cadence, route, crash phase, namespace, preconditioning, resumed-at-final) tuples. "
+    "A few cases run BlackJAXSMC (stand-in random-walk blackjax, jax-traceable model) and apply the same history oracle."
 )
 ASSUMPTIONS = _c11.ASSUMPTIONS
 BUDGET_S = {"quick": 70, "thorough": 1500}
@@ -26,12 +27,18 @@ WANT = ("c18",)
 
 def gen_cases(seed, tier):
     n = 96 if tier == "quick" else 2000
-    return [crash_case(ID, seed, i, tier=tier) for i in range(n)]
+    from . import c05_blackjax
+
+    return c05_blackjax.cases(ID, seed, tier) + [crash_case(ID, seed, i, tier=tier) for i in range(n)]
 
 
 def scenario_of(case):
     if "scenario" in case:
         return case["scenario"]
+    if case.get("kind") == "blackjax":
+        from . import c05_blackjax
+
+        return c05_blackjax.scenario(case)
     scn = _draw(case)
     if case["run_index"] % 5 == 4:
         # the emcee-driven SMC variant shares the loop and the history (its own randomness is not restorable, which
@@ -61,6 +68,10 @@ def _draw(case):
 
 
 def run_case(case, workdir):
+    if case.get("kind") == "blackjax":
+        from . import c05_blackjax
+
+        return c05_blackjax.judge(case, workdir, scenario_of(case), want=('c18',))
     scn = scenario_of(case)
     quick = case.get("tier") == "quick"
     rng = rng_from(case["fault_seed"])
